@@ -466,6 +466,19 @@ def _check_one(i: int):
         sr2.add(z3.Not(ob.goal))
         if _guarded_check(sr2, max(2000, _TIMEOUT_MS // 2)) == z3.unsat:
             return i, 'unsat', None, time.time() - t0, 'z3 (goal-relevant slice incl. quantified assumptions)', None
+    import re as _re0
+    if any(_re0.fullmatch(pat, ob.name) for pat in _NO_RETRY):
+        # an obligation of a listed, open known finding is expected to stay open: one short attempt on the full path condition only
+        s, r = _solve(ob, ground_ax, [], min(_TIMEOUT_MS, 5000))
+        if r == z3.unsat:
+            return i, 'unsat', None, time.time() - t0, 'z3', None
+        mtxt = None
+        if r == z3.sat:
+            try:
+                mtxt = _model_to_text(s.model())
+            except Exception:
+                mtxt = None
+        return i, ('sat' if r == z3.sat else 'unknown'), mtxt, time.time() - t0, 'z3 (short budget: obligation of an open known finding)', (None if r == z3.sat else s.reason_unknown())
     # phase 1: quantifier-free axioms + ground injectivity instances (fewer axioms: unsat is sound, sat is a candidate)
     s, r = _solve(ob, ground_ax, _ground_injectivity(list(ob.pc) + [ob.goal]) if quant_ax else [], _TIMEOUT_MS)
     cand_model = None
